@@ -59,3 +59,4 @@ CFG['level_text'] += ' Non-ASCII runes are also drawn from the edges of every ra
 CFG['level_text'] += ' Each batch also starts 12 (thorough 60) fresh child processes whose very first calls into package module come from sixteen goroutines released together; every verdict must match the documented rules.'
 CFG['level_text'] += ' The path soup includes reserved stems that first occur inside a longer word and later stand as an element (falcon/con/driver.go).'
 CFG['level_text'] += ' The three path checks are asked a second time in the opposite order (file, import, module) and must repeat their verdicts.'
+CFG['level_text'] += ' Version fields include decimal digits outside ASCII and identifiers with Latin-1 letters and a lone Latin-1 byte.'
